@@ -15,7 +15,7 @@ import (
 func init() {
 	register(&Prop{
 		ID:          "C04",
-		Explanation: "Decides that sessions are built from claims only behind token verification: idTokenVerifier.Verify returns a token only when go-oidc's Verify returned it without error and verifyAudience's verdict was true; verifyAudience/isValidAudience are true only on a membership hit of a token audience in allowedAudiences, whose only writer is NewVerifier (keys: ClientID, ExtraAudiences); every oidc.Config literal leaves expiry and signature checks on and takes SkipIssuerCheck from SkipIssuerVerification alone (SkipClientIDCheck:true is accepted because the own audience check is proven); createSession / CreateSessionFromToken / the bearer closure build a session from the raw token only on paths where that same token passed Verify (sole exception: refresh with ErrMissingIDToken, where the token string is empty); the email_verified gate guards every success return of the two claim readers; the bearer loader list holds only provider.CreateSessionFromToken and CreateTokenToSessionFunc(verifier.Verify); every override of CreateSessionFromToken/RefreshSession/Redeem on an OIDC-embedding provider succeeds only after the embedded implementation succeeded; the claim extractor's token document is set once and never mutated, and GetClaim returns a profile-endpoint value only after the token lookup for that claim returned nothing. Added during the build: buildSessionFromClaims reads a claim from the verified token's claims before any profile-URL fallback (R7). Every go-oidc Claims() target is a variable of the calling invocation, so claims absent from one token cannot be inherited from another (R8). Round 3: every write of ProviderVerifierOptions.SkipIssuerVerification is the operator's option or constant false (under R2). Round 4: each insecure OIDC toggle is converted from the legacy flag of the same meaning (R9); every verifier is built from an options value of its own (R10); verifyAudience consults at most one audience claim found in the token — the first configured one present decides (under R1). Round 6: the configured provider's own CreateSessionFromToken (which applies the operator's claim mapping) is one of the bearer loaders (under R5).",
+		Explanation: "Decides that sessions are built from claims only behind token verification: idTokenVerifier.Verify returns a token only when go-oidc's Verify returned it without error and verifyAudience's verdict was true; verifyAudience/isValidAudience are true only on a membership hit of a token audience in allowedAudiences, whose only writer is NewVerifier (keys: ClientID, ExtraAudiences); every oidc.Config literal leaves expiry and signature checks on and takes SkipIssuerCheck from SkipIssuerVerification alone (SkipClientIDCheck:true is accepted because the own audience check is proven); createSession / CreateSessionFromToken / the bearer closure build a session from the raw token only on paths where that same token passed Verify (sole exception: refresh with ErrMissingIDToken, where the token string is empty); the email_verified gate guards every success return of the two claim readers; the bearer loader list holds only provider.CreateSessionFromToken and CreateTokenToSessionFunc(verifier.Verify); every override of CreateSessionFromToken/RefreshSession/Redeem on an OIDC-embedding provider succeeds only after the embedded implementation succeeded; the claim extractor's token document is set once and never mutated, and GetClaim returns a profile-endpoint value only after the token lookup for that claim returned nothing. Added during the build: buildSessionFromClaims reads a claim from the verified token's claims before any profile-URL fallback (R7). Every go-oidc Claims() target is a variable of the calling invocation, so claims absent from one token cannot be inherited from another (R8). Round 3: every write of ProviderVerifierOptions.SkipIssuerVerification is the operator's option or constant false (under R2). Round 4: each insecure OIDC toggle is converted from the legacy flag of the same meaning (R9); every verifier is built from an options value of its own (R10); verifyAudience consults at most one audience claim found in the token — the first configured one present decides (under R1). Round 6: the configured provider's own CreateSessionFromToken (which applies the operator's claim mapping) is one of the bearer loaders (under R5). Round 7: request handling keeps no state of its own between requests — no store, map update, in-place builtin, atomic/sync.Map write or pointer-receiver library call (singleflight, caches) reached from ServeHTTP targets a package-level variable, an object built at start-up, or a constructor variable captured by the handler it returned, declared in the packages implementing this property (RS; a class-wide who-may-write rule with zero instances today: a correct memoisation would be reported until reviewed). A RefreshSession override that delegates to the generic refresh only extends the groups the refreshed token produced (R11); refresh adopts the token's identity claims with the token (R12, shared with C12.R9; generic OIDC path only — the legacy Azure provider keeps Graph groups by design and stays an unclaimed site).",
 		NotDecided:  "claim-value equality between token and session fields; go-oidc's signature/issuer/expiry code (trusted when not told to skip); the legacy Azure provider's extractClaimsIntoSession (verifies either token, reads the ID token's claims) is listed as an unclaimed site.",
 		Run:         runC04,
 	})
@@ -30,6 +30,10 @@ func runC04(c *Ctx) {
 	r.Rule("R3-same-token", "claims are read only from the token that passed Verify on this path", 6)
 	r.Rule("R4-email-verified", "email_verified gate on every success return of the claim readers", 5)
 	r.Rule("R5-bearer-loaders", "bearer loader list = the configured provider's CreateSessionFromToken + CreateTokenToSessionFunc(verifier.Verify)", 3)
+	r.Rule("R11-override-extends-refreshed-groups", "a RefreshSession override that delegates to the generic refresh only extends the groups the refreshed ID token produced, never restores a list captured before the refresh (round 7)", 1)
+	runC04R11(c, "R11-override-extends-refreshed-groups")
+	r.Rule("R12-refresh-adopts-identity", "a refresh that adopts the new ID token adopts its e-mail, user, groups and preferred user name with it (shared with C12.R9, round 7)", 3)
+	runC12R9(c, "R12-refresh-adopts-identity")
 	r.Rule("R9-legacy-toggle-table", "each insecure OIDC toggle is converted from the legacy flag of the same meaning", 4)
 	r.Rule("R10-verifier-options-per-issuer", "every verifier is built from an options value of its own (no options object shared between issuers)", 2)
 	r.Rule("R8-claims-target-fresh", "every go-oidc Claims() target is a variable allocated in the calling invocation", 3)
@@ -978,5 +982,112 @@ func runVerifierOptionsFresh(c *Ctx, rule string) {
 	}
 	if n == 0 {
 		c.R.Unknown(rule, "options-own|none", "-", "NewProviderVerifier has no caller")
+	}
+}
+
+// runC04R11 (round 7): a provider that wraps the generic refresh (Keycloak-OIDC, GitLab, Entra ID: an embedded
+// *OIDCProvider or a stored refresh function) may ADD to what the refreshed, verified ID token says — roles, projects —
+// but must not put back what the session said before the refresh. Every store to s.Groups that follows the delegate call
+// is computed from a read of s.Groups made after that call (append to it, de-duplicate it); a value captured before the
+// delegate ran is the previous token's groups, and a group revoked at the identity provider would survive every refresh.
+func runC04R11(c *Ctx, rule string) {
+	sessT := c.P.Named("pkg/apis/sessions.SessionState")
+	groupsF := c.Field(rule, "pkg/apis/sessions.SessionState.Groups")
+	if sessT == nil || groupsF == nil {
+		return
+	}
+	isRefreshSig := func(sig *types.Signature) bool {
+		if sig == nil || sig.Params().Len() != 2 || sig.Results().Len() != 2 {
+			return false
+		}
+		pt, ok := sig.Params().At(1).Type().(*types.Pointer)
+		if !ok || !types.Identical(pt.Elem(), sessT) {
+			return false
+		}
+		b, ok := sig.Results().At(0).Type().Underlying().(*types.Basic)
+		return ok && b.Kind() == types.Bool
+	}
+	n := 0
+	for _, fn := range c.P.ModFns {
+		if fn.Name() != "RefreshSession" || prog.Short(prog.FnPkg(fn).Path()) != "providers" || len(fn.Params) < 3 || len(fn.Blocks) == 0 {
+			continue
+		}
+		sp := fn.Params[2]
+		// the delegate: a call with the refresh signature that is handed this session
+		var delegate *ssa.Call
+		for _, b := range fn.Blocks {
+			for _, in := range b.Instrs {
+				call, ok := in.(*ssa.Call)
+				if !ok || !isRefreshSig(call.Call.Signature()) {
+					continue
+				}
+				args := call.Call.Args
+				if len(args) > 0 && args[len(args)-1] == ssa.Value(sp) {
+					delegate = call
+				}
+			}
+		}
+		if delegate == nil {
+			continue
+		}
+		after := func(in ssa.Instruction) bool {
+			if in.Block() == delegate.Block() {
+				for _, x := range in.Block().Instrs {
+					if x == ssa.Instruction(delegate) {
+						return true
+					}
+					if x == in {
+						return false
+					}
+				}
+			}
+			return delegate.Block().Dominates(in.Block())
+		}
+		for _, b := range fn.Blocks {
+			for _, in := range b.Instrs {
+				st, ok := in.(*ssa.Store)
+				if !ok {
+					continue
+				}
+				fa, ok := st.Addr.(*ssa.FieldAddr)
+				if !ok || fa.X != ssa.Value(sp) || walk.FieldOf(fa.X.Type(), fa.Field) != groupsF || !after(in) {
+					continue
+				}
+				n++
+				key := "extends-refreshed-groups|" + fnKey(fn)
+				// does the stored value depend on a read of s.Groups made after the delegate returned?
+				seen := map[ssa.Value]bool{}
+				var dep func(v ssa.Value, d int) bool
+				dep = func(v ssa.Value, d int) bool {
+					if v == nil || d > 10 || seen[v] {
+						return false
+					}
+					seen[v] = true
+					if ld, ok := v.(*ssa.UnOp); ok && ld.Op == token.MUL {
+						if a, ok := ld.X.(*ssa.FieldAddr); ok && a.X == ssa.Value(sp) && walk.FieldOf(a.X.Type(), a.Field) == groupsF {
+							return after(ld)
+						}
+					}
+					in, ok := v.(ssa.Instruction)
+					if !ok {
+						return false
+					}
+					for _, op := range in.Operands(nil) {
+						if op != nil && *op != nil && dep(*op, d+1) {
+							return true
+						}
+					}
+					return false
+				}
+				if dep(st.Val, 0) {
+					c.ok(rule, key, in, "the groups stored after the delegated refresh are computed from the groups it produced")
+				} else {
+					c.R.Bad(rule, key, c.pos(in), "after the delegated refresh returned, s.Groups is assigned a value that does not derive from the groups the refresh just took from the verified ID token (a list captured before the refresh): the refreshed session keeps the previous token's groups", nil, nil)
+				}
+			}
+		}
+	}
+	if n == 0 {
+		c.R.Unknown(rule, "extends-refreshed-groups|none", "-", "no RefreshSession override that stores s.Groups after delegating found (GitLab today)")
 	}
 }
